@@ -2,6 +2,7 @@ package limsim
 
 import (
 	"context"
+	"fmt"
 	"net/http"
 	"net/url"
 	"pgregory.net/rapid"
@@ -41,4 +42,10 @@ func drawSrcBase(rt *rapid.T) {
 	srcBase = rapid.IntRange(0, len(srcNames)-1).Draw(rt, "source-tokens-from")
 }
 
-func srcName(i int) string { return srcNames[(srcBase+i)%len(srcNames)] } // at most 12 sources are ever drawn
+// srcName: the first sources of a run come from the list of awkward tokens, any further ones are numbered.
+func srcName(i int) string {
+	if i < len(srcNames) {
+		return srcNames[(srcBase+i)%len(srcNames)]
+	}
+	return fmt.Sprintf("172.16.%d.%d", i/250, i%250)
+}
